@@ -2,5 +2,5 @@ From C04 Require Import Model.
 From Base Require Import CInt.
 Require Extraction.
 Require Import ExtrOcamlBasic.
-Extraction "model.ml" run_narrow run_cast run_bounds run_idiv run_imod run_tdiv run_tmod run_deref run_lib string_byte
+Extraction "model.ml" run_narrow run_cast run_bounds run_idiv run_imod run_tdiv run_tmod run_tdivm run_tmodm run_deref run_lib string_byte
   mkity needs_check.
